@@ -9,11 +9,11 @@ Open Scope N_scope.
 Theorem process_block_error_keeps_db f st k e st' :
   process_block f st k = (Some e, st') -> st_db st' = st_db st.
 Proof.
-  unfold process_block. intros H.
+  unfold process_block, Gen.process_block. intros H.
   destruct (st_halted st); [inversion H; reflexivity|].
   destruct (hits f _ TBlock); [inversion H; reflexivity|].
   destruct (existsb _ _); [inversion H; reflexivity|].
-  destruct (process_events _ _ _ _) as [[[err x] oe]|x].
+  destruct (Gen.process_events _ _ _ _ _ _ _ _) as [[[err x] oe]|x].
   - destruct (match oe with Some e0 => _ | None => _ end) as [mem1 added]. inversion H; reflexivity.
   - destruct (hits f (x_cnt x) TCommit); inversion H; reflexivity.
 Qed.
@@ -22,18 +22,18 @@ Qed.
 Theorem process_block_ok_records_block f st k st' :
   process_block f st k = (None, st') -> exists x, st_db st' = x_db x /\ st_halted st' = false.
 Proof.
-  unfold process_block. intros H.
+  unfold process_block, Gen.process_block. intros H.
   destruct (st_halted st); [discriminate|].
   destruct (hits f _ TBlock); [discriminate|].
   destruct (existsb _ _); [discriminate|].
-  destruct (process_events _ _ _ _) as [[[err x] oe]|x].
+  destruct (Gen.process_events _ _ _ _ _ _ _ _) as [[[err x] oe]|x].
   - destruct (match oe with Some e0 => _ | None => _ end) as [mem1 added]. discriminate.
   - destruct (hits f (x_cnt x) TCommit); [discriminate|]. inversion H; subst. exists x. split; reflexivity.
 Qed.
 
 (* a halted processor refuses every block and does not change *)
 Theorem halted_is_sticky f st k : st_halted st = true -> process_block f st k = (Some PInconsistent, st).
-Proof. intros H. unfold process_block. rewrite H. reflexivity. Qed.
+Proof. intros H. unfold process_block, Gen.process_block. rewrite H. reflexivity. Qed.
 
 (* after fix F1: a rollback that undoes at least one appended leaf leaves the cache marked invalid, so the
    next AddLeaf goes through initCache (index test can never succeed against lastIndex = -2) *)
@@ -49,9 +49,9 @@ Theorem invalid_cache_forces_init db mem blk bpos idx leaf : m_last mem = (-2)%Z
       else (mem', inl EInvalidIndex)
   end.
 Proof.
-  intros H. unfold add_leaf_exec. rewrite H.
+  intros H. unfold add_leaf_exec, TreeStore.Gen.add_leaf_exec, init_cache. rewrite H.
   assert (E : Z.eqb (Z.of_N idx) (-2 + 1)%Z = false) by (apply Z.eqb_neq; lia). rewrite E.
-  destruct (init_cache db) as [e|mem']; [reflexivity|].
+  destruct (TreeStore.Gen.init_cache HEIGHT db) as [e|mem']; [reflexivity|].
   destruct (Z.eqb (Z.of_N idx) (m_last mem' + 1)%Z) eqn:E2; reflexivity.
 Qed.
 (* rollback of a transaction that appended nothing leaves the memory untouched *)
